@@ -88,8 +88,8 @@ func c17(c *eng.Ctx, r *eng.Report) {
 	c17ReAddSeesOnlyThePool(c, r)
 	c17MarkKeyedByReceipt(c, r)
 	c17LockOrder(c, r)
-	r.Min("R17.7", 3)
-	batchResetAs(c, r, "R17.7", "service", 2)
+	r.Min("R17.7", 2)
+	batchResetAs(c, r, "R17.7", "service", 1)
 }
 
 // c17PushTotal: once add() decided that a transaction is neither pending nor
@@ -149,6 +149,16 @@ func c17Order(c *eng.Ctx, r *eng.Report) {
 		var puts, writes []*ssa.Call
 		for _, s := range eng.Sites(me) {
 			call, ok := s.Instr.(*ssa.Call)
+			if ok && !call.Call.IsInvoke() {
+				// a service helper that flushes the batch (Write, then Reset) stands for the Write at its call site
+				if h := call.Call.StaticCallee(); h != nil && h.Blocks != nil && strings.HasSuffix(eng.FuncPkgPath(h), "/src/service") {
+					for _, s2 := range eng.Sites(h) {
+						if c2, ok2 := s2.Instr.(*ssa.Call); ok2 && c2.Call.IsInvoke() && c2.Call.Method.Name() == "Write" && strings.HasSuffix(eng.Desc(c2.Call.Value), ".batch") {
+							writes = append(writes, call)
+						}
+					}
+				}
+			}
 			if !ok || !call.Call.IsInvoke() || !strings.HasSuffix(eng.Desc(call.Call.Value), ".batch") {
 				continue
 			}
